@@ -573,3 +573,40 @@ def check_built(repo, hist, revids=None):
         rev = repo.get_revision(rid.encode())
         if [p.decode() for p in rev.parent_ids] != hist.revs[rid]["parents"]:
             raise AssertionError(f"histsim: parents of {rid}: {rev.parent_ids} vs {hist.revs[rid]['parents']}")
+
+
+def relativise_log(sim):
+    """Scratch paths embed pids: keep them out of the event log (and so of the digest)."""
+    if getattr(sim, "_hist_rel", False):
+        return
+    orig = sim.event
+    base = os.environ["VERIF_SCRATCH"]
+
+    def event(*fields, vol=None):
+        orig(*[str(f).replace(base, "<S>") for f in fields], vol=vol)
+
+    sim.event = event
+    sim._hist_rel = True
+
+
+def scratch(name):
+    return os.path.join(os.environ["VERIF_SCRATCH"], name)
+
+
+def warm_scratch(fn):
+    """Run fn() with a temporary VERIF_SCRATCH (for warm())."""
+    import tempfile
+
+    d = tempfile.mkdtemp(prefix="histwarm", dir=os.environ.get("VERIF_SCRATCH_BASE") or "/dev/shm")
+    old = {k: os.environ.get(k) for k in ("VERIF_SCRATCH", "BRZ_HOME", "HOME")}
+    os.makedirs(os.path.join(d, "home"), exist_ok=True)
+    os.environ.update(VERIF_SCRATCH=d, BRZ_HOME=os.path.join(d, "home"), HOME=os.path.join(d, "home"))
+    try:
+        return fn()
+    finally:
+        for k, v in old.items():
+            if v is None:
+                os.environ.pop(k, None)
+            else:
+                os.environ[k] = v
+        shutil.rmtree(d, ignore_errors=True)
